@@ -1058,7 +1058,13 @@ func realNanos() int64 {
 
 // joinBudget is the wall-clock time after which a case outside a bubble is
 // abandoned as inconclusive (never as a violation).
-var joinBudget = 120 * time.Second
+var joinBudget = 60 * time.Second
+
+// timeouts counts the cases of this process abandoned by the join budget. After
+// two of them the remaining cases outside a bubble are skipped: every further
+// hang would cost another budget, and only the bubble phase of C42 can prove a
+// deadlock anyway.
+var timeouts atomic.Int32
 
 func (e *engine) spawn(t *thread, ready *sync.WaitGroup, start <-chan struct{}, body func() error) {
 	e.threads = append(e.threads, t)
@@ -1127,6 +1133,11 @@ func runOnce(p *Plan) (out evid.Outcome, err error) {
 
 	if len(p.Groups) == 0 || len(p.Groups) > 3 {
 		return out, nil // not a plan of this generator
+	}
+	if !p.Bubble && timeouts.Load() >= 2 {
+		e.counters["skipped-after-timeouts"]++
+		out.Labels = append(out.Labels, "skipped-after-timeouts")
+		return out, nil
 	}
 	e.opts = dbm.BuildOptions(p.Opt, e.fs, e.listener(), e.lg)
 	db, oerr := pebble.Open("db", e.opts)
@@ -1266,7 +1277,9 @@ func runOnce(p *Plan) (out evid.Outcome, err error) {
 			if v := e.firstViol(); v != nil {
 				return out, v
 			}
+			timeouts.Add(1)
 			e.counters["inconclusive-timeout"]++
+			out.Labels = append(out.Labels, "inconclusive-timeout")
 			dumpGoroutines(p.Mode, "threads of a case did not finish within the wall-clock budget; case abandoned as inconclusive")
 			return out, nil
 		}
